@@ -23,3 +23,12 @@ Fixpoint flat_write_many (mem : list Z) (ws : list (Z * list Z)) : list Z :=
   | [] => mem
   | (a, d) :: r => flat_write_many (flat_write mem a d) r
   end.
+
+(* last writer wins: the value of byte [i] after a history of writes, given its value before *)
+Fixpoint byte_after (ws : list (Z * list Z)) (old : option Z) (i : nat) : option Z :=
+  match ws with
+  | [] => old
+  | (a, d) :: r =>
+      byte_after r (if ((Z.to_nat a <=? i) && (i <? Z.to_nat a + length d))%nat
+                    then nth_error d (i - Z.to_nat a) else old) i
+  end.
